@@ -641,7 +641,8 @@ func checkC11Deep(c C11DeepCase) error {
 
 type C11GoneCase struct {
 	Opts int `json:"opts"` // bit2 ignore missing
-	How  int `json:"how"`  // 0 the included file is removed, 1 rewritten with a syntax error, 2 replaced by a directory
+	How  int `json:"how"`  // 0 the included file is removed, 1 rewritten with a syntax error, 2 replaced by a directory, 3 (compiled loader) truncated
+	Mode int `json:"mode"` // 0 cache on + auto-reload, 1 cache off, 2 a CompiledLoader over .twig.compiled files (cache off)
 }
 
 // checkC11Gone: auto-reload on, file-system loader; after a successful render the included file goes
@@ -662,11 +663,18 @@ func checkC11Gone(c C11GoneCase) error {
 		os.WriteFile(p, []byte(src), 0o644)
 		os.Chtimes(p, time.Unix(ts, 0), time.Unix(ts, 0))
 	}
+	if c.Mode == 2 {
+		return checkC11GoneCompiled(c, root, opts)
+	}
 	write("main", "A{% include 'part'"+opts+" %}B", 1700000000)
 	write("part", "(part{{ v }})", 1700000000)
 	e := twig.New()
 	e.RegisterLoader(twig.NewFileSystemLoader([]string{root}))
-	e.SetAutoReload(true)
+	if c.Mode == 1 {
+		e.SetCache(false)
+	} else {
+		e.SetAutoReload(true)
+	}
 	if r := render(e, "main", map[string]interface{}{"v": 1}); r.Failed() || r.Out != "A(part1)B" {
 		return fmt.Errorf("first render: %v", r)
 	}
@@ -683,26 +691,70 @@ func checkC11Gone(c C11GoneCase) error {
 	if r.Panic != "" {
 		return fmt.Errorf("panic: %s", r.Panic)
 	}
-	what := []string{"was removed", "was rewritten with a syntax error", "was replaced by a directory"}[c.How]
+	what := []string{"was removed", "was rewritten with a syntax error", "was replaced by a directory"}[c.How] + []string{" (cache on, auto-reload on)", " (cache off)"}[c.Mode]
 	switch {
 	case c.How == 0 && c.Opts&4 != 0:
 		if r.Failed() || r.Out != "AB" {
-			return fmt.Errorf("the included file %s (auto-reload on, `ignore missing`): %v, want \"AB\"", what, r)
+			return fmt.Errorf("the included file %s (`ignore missing`): %v, want \"AB\"", what, r)
 		}
 	case c.How == 0:
 		if r.Err == "" || !errors.Is(r.Error(), twig.ErrTemplateNotFound) {
-			return fmt.Errorf("the included file %s (auto-reload on): %v, want an error matching ErrTemplateNotFound", what, r)
+			return fmt.Errorf("the included file %s: %v, want an error matching ErrTemplateNotFound", what, r)
 		}
 	default:
 		if r.Err == "" {
-			return fmt.Errorf("the included file %s (auto-reload on): the render returned %s without an error", what, q(r.Out))
+			return fmt.Errorf("the included file %s: the render returned %s without an error", what, q(r.Out))
+		}
+	}
+	return nil
+}
+
+// checkC11GoneCompiled: the same through a CompiledLoader: the compiled file of the included template
+// is removed (missing) or cut short (damaged: reported, `ignore missing` or not).
+func checkC11GoneCompiled(c C11GoneCase, root, opts string) error {
+	src := newEngine(map[string]string{"main": "A{% include 'part'" + opts + " %}B", "part": "(part{{ v }})"})
+	cl := twig.NewCompiledLoader(root)
+	for _, n := range []string{"main", "part"} {
+		if err := cl.SaveCompiled(src, n); err != nil {
+			return fmt.Errorf("harness: SaveCompiled: %v", err)
+		}
+	}
+	e := twig.New()
+	e.RegisterLoader(twig.NewCompiledLoader(root))
+	e.SetCache(false)
+	if r := render(e, "main", map[string]interface{}{"v": 1}); r.Failed() || r.Out != "A(part1)B" {
+		return fmt.Errorf("first render through the compiled loader: %v", r)
+	}
+	p := filepath.Join(root, "part.twig.compiled")
+	if c.How == 0 {
+		os.Remove(p)
+	} else {
+		data, _ := os.ReadFile(p)
+		os.WriteFile(p, data[:len(data)/2], 0o644)
+	}
+	r := render(e, "main", map[string]interface{}{"v": 2})
+	if r.Panic != "" {
+		return fmt.Errorf("panic: %s", r.Panic)
+	}
+	switch {
+	case c.How == 0 && c.Opts&4 != 0:
+		if r.Failed() || r.Out != "AB" {
+			return fmt.Errorf("compiled file of the included template removed, `ignore missing`: %v, want \"AB\"", r)
+		}
+	case c.How == 0:
+		if r.Err == "" || !errors.Is(r.Error(), twig.ErrTemplateNotFound) {
+			return fmt.Errorf("compiled file of the included template removed: %v, want an error matching ErrTemplateNotFound", r)
+		}
+	default:
+		if r.Err == "" {
+			return fmt.Errorf("compiled file of the included template cut short (it is there, but damaged): the render returned %s without an error", q(r.Out))
 		}
 	}
 	return nil
 }
 
 func TestC11Deep(t *testing.T) {
-	r := NewRec(t, "C11", "exhaustive: includes nested 1, 2, 10, 31, 32, 33, 47..51, 64, 100, 150 levels (one template including itself with a counter, and a chain of distinct templates, with and without `with`), the innermost reading variables of the outermost template and of the Render call; an included file that is removed / broken / replaced by a directory after a successful render under auto-reload, with and without `ignore missing`; expected text computed directly; non-trivial = depth >= 10 or the file changes")
+	r := NewRec(t, "C11", "exhaustive: includes nested 1, 2, 10, 31, 32, 33, 47..51, 64, 100, 150 levels (one template including itself with a counter, and a chain of distinct templates, with and without `with`), the innermost reading variables of the outermost template and of the Render call; an included file that is removed / broken / replaced by a directory after a successful render (cache on with auto-reload, cache off, and through a CompiledLoader whose file is removed or cut short), with and without `ignore missing`; expected text computed directly; non-trivial = depth >= 10 or the file changes")
 	defer r.Flush()
 	r.SetExhaustive()
 	for _, d := range []int{1, 2, 10, 31, 32, 33, 47, 48, 49, 50, 51, 64, 100, 150} {
@@ -716,9 +768,9 @@ func TestC11Deep(t *testing.T) {
 			}
 		}
 	}
-	for how := 0; how < 3; how++ {
+	for _, hm := range [][2]int{{0, 0}, {1, 0}, {2, 0}, {0, 1}, {1, 1}, {2, 1}, {0, 2}, {3, 2}} {
 		for _, opts := range []int{0, 4} {
-			c := C11GoneCase{Opts: opts, How: how}
+			c := C11GoneCase{Opts: opts, How: hm[0], Mode: hm[1]}
 			r.Case(fmt.Sprint("gone", c), true, c)
 			if err := checkC11Gone(c); err != nil {
 				r.FailEnum(t, "C11.gone", c, err)
@@ -743,12 +795,19 @@ func checkC11Name(c C11NameCase) error {
 		opts += " ignore missing"
 	}
 	if c.Opts&1 != 0 {
-		opts += " with {'w': 'W'}"
+		// one new name, and the includer's own variable handed on under its own name
+		if c.Quote == 0 {
+			opts += " with {w: 'W', o: o}"
+		} else {
+			opts += " with {'w': 'W', 'o': o}"
+		}
 		want = "A[inc:W|outer]B"
 	}
 	if c.Opts&2 != 0 {
 		opts += " only"
-		want = strings.Replace(want, "|outer", "|", 1)
+		if c.Opts&1 == 0 {
+			want = strings.Replace(want, "|outer", "|", 1)
+		}
 	}
 	if c.Opts&8 != 0 {
 		opts += " sandboxed"
